@@ -11,8 +11,17 @@ package pfcpiface
 import (
 	"context"
 	"net"
+	"net/http"
 	"sync"
+	"time"
+
+	pb "github.com/omec-project/upf-epc/pfcpiface/bess_pb"
 )
+
+var _ time.Duration
+var _ pb.BESSControlClient
+
+var _ http.Handler
 
 var _ context.Context
 
@@ -77,6 +86,9 @@ func refOf[T any](p *T) int { panic("ghost builtin") }
 // allocated reports whether the object x refers to existed when the function under
 // verification was entered (false for objects it allocated itself).
 func allocated[T any](x T) bool { panic("ghost builtin") }
+
+// ptrAt reinterprets an object identity as a pointer to an object of type T.
+func ptrAt[T any](ref int) *T { panic("ghost builtin") }
 
 // nonNil reports whether a pointer, slice, or interface payload reference is non-nil.
 func nonNil[T any](x T) bool { panic("ghost builtin") }
@@ -382,3 +394,97 @@ func specAllPdrsRef(s *PFCPSession, v uint32) bool {
 //@   loop 1 invariant C09.mark.l1.common: forall x int, j int :: lo(sessQerIDList) <= x && x < hi(sessQerIDList) && lo(s.pdrs) <= j && j < lo(s.pdrs)+rangeidx+1 ==> specContains(at(s.pdrs, j).qerIDList, at(sessQerIDList, x))
 //@   loop 2 invariant C09.mark.l2.idx: rangeidx+1 <= len(qers) && 0 <= sessionIdx
 //@   loop 2 invariant C09.mark.l2.pick: found ==> sessionIdx < len(qers) && specContains(sessQerIDList, at(qers, lo(qers)+sessionIdx).qerID) && sessQerID == at(qers, lo(qers)+sessionIdx).qerID
+
+// ---------------------------------------------------------------------------
+// C19: slice-configuration REST endpoint
+// ---------------------------------------------------------------------------
+
+// specUnit is the multiplier of a bit-rate unit (Mbps when unstated or unknown).
+func specUnit(rate string) uint64 {
+	switch rate {
+	case "bps":
+		return 1
+	case "Kbps":
+		return 1000
+	case "Gbps":
+		return 1000000000
+	}
+
+	return 1000000
+}
+
+// specFits63: mbr*unit < 2^63 (no multiplication: mbr <= floor((2^63-1)/unit)).
+func specFits63(mbr, unit uint64) bool {
+	return mbr <= 9223372036854775807/unit
+}
+
+//@ func calculateBitRates(mbr uint64, rate string) (r uint64)
+//@   ensures C19.rate.bps: rate == "bps" ==> r == mbr
+//@   ensures C19.rate.convert: mbr != 0 && specFits63(mbr, specUnit(rate)) ==> r == mbr*specUnit(rate)
+
+// Ghost log "slice": one entry per datapath.AddSliceInfo call; fields slice.ul, slice.dl (bit/s),
+// slice.ulburst, slice.dlburst (bytes).
+func specSliceEntry(e int, si *SliceInfo) bool {
+	return gfield("slice.ul", e) == si.uplinkMbr && gfield("slice.dl", e) == si.downlinkMbr &&
+		gfield("slice.ulburst", e) == si.ulBurstBytes && gfield("slice.dlburst", e) == si.dlBurstBytes
+}
+
+//@ func (d datapath) AddSliceInfo(sliceInfo *SliceInfo) (err error)
+//@   requires sliceInfo != nil
+//@   appends slice
+//@   ensures specSliceEntry(gentry("slice", glen("slice")-1), sliceInfo)
+
+//@ func (u *upf) addSliceInfo(sliceInfo *SliceInfo) (err error)
+//@   requires u != nil && u.datapath != nil
+//@   ensures C19.upf.nil: sliceInfo == nil ==> err != nil && glen("slice") == old[int](glen("slice"))
+//@   ensures C19.upf.call: sliceInfo != nil ==> glen("slice") == old[int](glen("slice"))+1 && specSliceEntry(gentry("slice", old[int](glen("slice"))), sliceInfo)
+
+//@ func handleSliceConfig(nwSlice *NetworkSlice, upf *upf)
+//@   requires nwSlice != nil && upf != nil && upf.datapath != nil
+//@   ensures C19.cfg.once: glen("slice") == old[int](glen("slice"))+1
+//@   ensures C19.cfg.ul: nwSlice.SliceQos.UplinkMbr != 0 && specFits63(nwSlice.SliceQos.UplinkMbr, specUnit(nwSlice.SliceQos.BitrateUnit)) ==> gfield("slice.ul", gentry("slice", old[int](glen("slice")))) == nwSlice.SliceQos.UplinkMbr*specUnit(nwSlice.SliceQos.BitrateUnit)
+//@   ensures C19.cfg.dl: nwSlice.SliceQos.DownlinkMbr != 0 && specFits63(nwSlice.SliceQos.DownlinkMbr, specUnit(nwSlice.SliceQos.BitrateUnit)) ==> gfield("slice.dl", gentry("slice", old[int](glen("slice")))) == nwSlice.SliceQos.DownlinkMbr*specUnit(nwSlice.SliceQos.BitrateUnit)
+//@   ensures C19.cfg.burst: gfield("slice.ulburst", gentry("slice", old[int](glen("slice")))) == nwSlice.SliceQos.UlBurstBytes && gfield("slice.dlburst", gentry("slice", old[int](glen("slice")))) == nwSlice.SliceQos.DlBurstBytes
+//@   ensures C19.cfg.nohttp: glen("http") == old[int](glen("http"))
+
+//@ func sendHTTPResp(status int, w http.ResponseWriter)
+//@   requires w != nil
+//@   ensures C19.resp.one: glen("http") == old[int](glen("http"))+1 && gfield("http.status", gentry("http", old[int](glen("http")))) == uint64(status)
+//@   ensures C19.resp.noslice: glen("slice") == old[int](glen("slice"))
+
+//@ func (c *ConfigHandler) ServeHTTP(w http.ResponseWriter, r *http.Request)
+//@   requires c != nil && c.upf != nil && c.upf.datapath != nil && w != nil && r != nil
+//@   ensures C19.http.one: glen("http") == old[int](glen("http"))+1
+//@   ensures C19.http.method: r.Method != "PUT" && r.Method != "POST" ==> gfield("http.status", gentry("http", old[int](glen("http")))) == 405 && glen("slice") == old[int](glen("slice"))
+//@   ensures C19.http.post: r.Method == "PUT" || r.Method == "POST" ==> (gfield("http.status", gentry("http", old[int](glen("http")))) == 201 && glen("slice") == old[int](glen("slice"))+1) || (gfield("http.status", gentry("http", old[int](glen("http")))) >= 400 && gfield("http.status", gentry("http", old[int](glen("http")))) < 500 && glen("slice") == old[int](glen("slice")))
+
+// ---- C19 on BESS: slice meter ----
+
+// Ghost log "slicemeter": one entry per addSliceMeter call (the call only starts the goroutine
+// addSliceMeter#1, which is verified as its own entry point).
+//@ func (b *bess) addSliceMeter(ctx context.Context, done chan<- bool, meterConfig SliceMeterConfig)
+//@   trusted
+//@   appends slicemeter
+//@   ensures gfield("slicemeter.n6rate", gentry("slicemeter", glen("slicemeter")-1)) == meterConfig.N6RateBps && gfield("slicemeter.n3rate", gentry("slicemeter", glen("slicemeter")-1)) == meterConfig.N3RateBps && gfield("slicemeter.n6burst", gentry("slicemeter", glen("slicemeter")-1)) == meterConfig.N6BurstBytes && gfield("slicemeter.n3burst", gentry("slicemeter", glen("slicemeter")-1)) == meterConfig.N3BurstBytes
+
+//@ func (b *bess) GRPCJoin(calls int, timeout time.Duration, done chan bool) (r bool)
+//@   trusted
+//@   pure
+
+//@ func (b *bess) AddSliceInfo(sliceInfo *SliceInfo) (err error)
+//@   requires b != nil && sliceInfo != nil
+//@   ensures C19.bess.once: glen("slicemeter") == old[int](glen("slicemeter"))+1
+//@   ensures C19.bess.map: gfield("slicemeter.n6rate", gentry("slicemeter", old[int](glen("slicemeter")))) == sliceInfo.uplinkMbr && gfield("slicemeter.n3rate", gentry("slicemeter", old[int](glen("slicemeter")))) == sliceInfo.downlinkMbr && gfield("slicemeter.n6burst", gentry("slicemeter", old[int](glen("slicemeter")))) == sliceInfo.ulBurstBytes && gfield("slicemeter.n3burst", gentry("slicemeter", old[int](glen("slicemeter")))) == sliceInfo.dlBurstBytes
+
+func specSliceCmd(e int) *pb.QosCommandAddArg {
+	return ptrAt[pb.QosCommandAddArg](int(gfield("bess.arg", e)))
+}
+
+//@ func (b *bess) addSliceMeter#1() free(meterConfig SliceMeterConfig, b *bess)
+//@   requires b != nil && b.client != nil
+//@   ensures C19.bessmeter.two: glen("bess") == old[int](glen("bess"))+2 || (gint("marshalfail") > old[int](gint("marshalfail")) && glen("bess") <= old[int](glen("bess"))+1)
+//@   ensures C19.bessmeter.target: forall k int :: old[int](glen("bess")) <= k && k < glen("bess") ==> gfieldS("bess.name", gentry("bess", k)) == "sliceMeter" && gfieldS("bess.cmd", gentry("bess", k)) == "add"
+//@   ensures C19.bessmeter.ul: glen("bess") > old[int](glen("bess")) && meterConfig.N6RateBps != 0 ==> specSliceCmd(gentry("bess", old[int](glen("bess")))).Gate == sliceMeterGateMeter && specSliceCmd(gentry("bess", old[int](glen("bess")))).Pir == meterConfig.N6RateBps/8
+//@   ensures C19.bessmeter.ulburst: glen("bess") > old[int](glen("bess")) && meterConfig.N6BurstBytes != 0 ==> specSliceCmd(gentry("bess", old[int](glen("bess")))).Pbs == meterConfig.N6BurstBytes
+//@   ensures C19.bessmeter.dl: glen("bess") > old[int](glen("bess"))+1 && meterConfig.N3RateBps != 0 ==> specSliceCmd(gentry("bess", old[int](glen("bess"))+1)).Gate == sliceMeterGateMeter && specSliceCmd(gentry("bess", old[int](glen("bess"))+1)).Pir == meterConfig.N3RateBps/8
+//@   ensures C19.bessmeter.dlburst: glen("bess") > old[int](glen("bess"))+1 && meterConfig.N3BurstBytes != 0 ==> specSliceCmd(gentry("bess", old[int](glen("bess"))+1)).Pbs == meterConfig.N3BurstBytes
